@@ -74,6 +74,9 @@ VersionSeq(s) == (IF s.pol.v2 THEN <<2>> ELSE <<>>) \o (IF s.pol.v3 THEN <<3>> E
 
 SortedPair(a, b) == IF a <= b THEN <<a, b>> ELSE <<b, a>>
 
+\* a public DH value in range whose exponent is not known to the observer (ids -1, -1000, -1001, ...)
+Unknown(id) == id = -1 \/ id <= -1000
+
 \* result of an API call
 Res(s, out, plain, err, evs) == [s |-> s, out |-> out, plain |-> plain, err |-> err, evs |-> evs]
 
